@@ -320,7 +320,12 @@ def _make_simlink_class():
                             if lt.name.startswith('_IncomingPacketHandler') and lt.state != dsched.DONE:
                                 busy = not (lt.state == dsched.BLOCKED and (lt.waiting_on is self.wakeup or lt.idle))
                         w.fault_context = {'dispatcher_busy': busy, 'time': sch.now}
+                        n0 = len(self.rx_log)
                         self.err_cb('injected link error (driver thread)')
+                        if len(self.rx_log) > n0:
+                            # the dispatcher took a packet from the link while the error was being processed
+                            w.fault_context['dispatcher_busy'] = True
+                            w.fault_context['during_processing'] = True
                 self._fault_thread = threading.Thread(target=driver_thread, name='simdriver')
                 self._fault_thread.daemon = True
                 self._fault_thread.start()
